@@ -34,10 +34,37 @@ def model_tokens(line):
     return [(bytes.fromhex(h).decode("utf-8"), t == "touch", int(l)) for h, t, l in _MTOK.findall(line or "")]
 
 
+def string_trees():
+    """Deterministic trees around every boundary string value: the literal alone, in a block between two
+    other literals, as call / method-call argument, list and tuple element, dict key and value, struct field,
+    operand of `^` and `==`, let / assignment value, return value, match scrutinee and arm body, condition."""
+    out = []
+    for v in G.STRINGS:
+        S = ("str", v)
+        b = ("str", "b")
+        out.append([("expr", S)])
+        out.append([("blockitem", ("block", [("str", "x\\y"), S, b]))])
+        out.append([("expr", ("call", ("var", "f"), [S, b]))])
+        out.append([("expr", ("mcall", S, "len", []))])
+        out.append([("expr", ("mcall", ("var", "x"), "m", [b, S]))])
+        out.append([("expr", ("list", [S, S]))])
+        out.append([("expr", ("tuple", [S]))])
+        out.append([("expr", ("dict", [(S, b), (b, S)]))])
+        out.append([("expr", ("structlit", "Foo", [("a", S), ("b2", b)]))])
+        out.append([("expr", ("binop", "^", ("binop", "==", S, b), S))])
+        out.append([("expr", ("let", ("sym", "x"), None, S))])
+        out.append([("expr", ("assign", "x", S)), ("expr", ("return", S))])
+        out.append([("expr", ("match", S, [("Some", ("sym", "y"), ("block", [S])), ("None", None, ("block", [b]))]))])
+        out.append([("expr", ("if", ("binop", "==", ("var", "x"), S), ("block", [S]), ("block", [S, b])))])
+        out.append([("fun", False, "foo", ([], [("p", "x", None)], None, ("block", [S]))), ("test", "t1", ("block", [("assert", S)]))])
+        out.append([("import", v if v else "x.gdn", None)])
+    return out
+
+
 def run(ctx):
     rng = ctx.rng
-    cases = []
-    knobs = []
+    cases = string_trees()
+    knobs = [dict(stream="string-boundaries") for _ in cases]
     n = ctx.scale(2500, 40000)
     max_depth = ctx.scale(4, 6)
     for i in range(n):
